@@ -48,6 +48,8 @@ pub fn run_one(tr: &RunTrace, opts: &RunOpts) -> RunReport {
     LOG_MODE.store(LOG_COUNT, Ordering::Relaxed);
     log::set_max_level(log::LevelFilter::Warn);
     HEAP_FILL.store(tr.knobs.heap as u8, Ordering::Relaxed);
+    GUARD_MODE.store(tr.knobs.guard as u8, Ordering::Relaxed);
+    let guarded_before = GUARDED_BLOCKS.load(Ordering::Relaxed);
 
     let world = Arc::new(World::new(tr.knobs.slots as usize, tr.knobs.repeat != 0));
     {
@@ -171,6 +173,11 @@ pub fn run_one(tr: &RunTrace, opts: &RunOpts) -> RunReport {
                 if let Some((key, msg)) = pointwise_check(&p.input, &p.op, out, &world.stats) {
                     world.violate("I4", "C11", key, msg, p.seq, p.tid);
                 }
+                if !opts.miri {
+                    if let Some((key, msg)) = band_check(&p.input, &p.op, out, &world.stats) {
+                        world.violate("I4", "C11", key, msg, p.seq, p.tid);
+                    }
+                }
                 if let Some((key, msg)) = label_check(&p.input, &p.op, out, &world.stats) {
                     world.violate("I6", "C15", key, msg, p.seq, p.tid);
                 }
@@ -229,6 +236,7 @@ pub fn run_one(tr: &RunTrace, opts: &RunOpts) -> RunReport {
         }
     }
     HEAP_FILL.store(0, Ordering::Relaxed);
+    GUARD_MODE.store(0, Ordering::Relaxed);
 
     let after = snapshot_fault_counters();
     if after[4] > before[4] {
@@ -247,12 +255,14 @@ pub fn run_one(tr: &RunTrace, opts: &RunOpts) -> RunReport {
     c.insert("ctor_reject", ld(&st.ctor_reject));
     c.insert("ctor_illformed_args", ld(&st.ill_formed));
     c.insert("mutations", ld(&st.mutations));
+    c.insert("clone_from_calls", ld(&st.clone_froms));
     c.insert("reads", ld(&st.reads));
     c.insert("repeats_same_thread", ld(&st.repeats));
     c.insert("refs_fresh_thread", ld(&st.refs_thread));
     c.insert("refs_fresh_process", ld(&st.refs_process));
     c.insert("stress_phase_conversions", ld(&st.stress_convs));
     c.insert("pointwise_pixels", ld(&st.pointwise_pixels));
+    c.insert("band_decompositions", ld(&st.band_checks));
     c.insert("label_checks", ld(&st.label_checks));
     c.insert("unspecified_resolved", ld(&st.unspecified_resolved));
     // fault kinds that actually fired
@@ -268,6 +278,8 @@ pub fn run_one(tr: &RunTrace, opts: &RunOpts) -> RunReport {
     c.insert("fault_logger_yield", after[3] - before[3]);
     c.insert("fault_logger_disabled", after[6] - before[6]);
     c.insert("fault_heap_fill_blocks", after[5] - before[5]);
+    c.insert("fault_guard_page_blocks", GUARDED_BLOCKS.load(Ordering::Relaxed) - guarded_before);
+    c.insert("runs_with_guard_pages", u64::from(tr.knobs.guard != 0));
     c.insert("fault_preempt_inside_call", sched_report.inner_switches);
     c.insert("sched_yield_points", sched_report.yields);
     c.insert("sched_switches", sched_report.switches);
